@@ -193,7 +193,7 @@ func c04Weights(c *ctx) {
 		if k >= 2 && nfixed > 0 {
 			c.R.Nontrivial(script)
 		}
-		if i%20000 == 0 && k < 12 {
+		if k < 12 && k >= 2 && c.R.WantSample() {
 			c.R.Sample(map[string]any{"script": strings.Split(strings.TrimSpace(script), "\n"), "effective": eff})
 		}
 		// ring
